@@ -100,3 +100,6 @@ Definition frame_ret (sk : skeleton) (ps : list var) (r : var) : list Z :=
   | ABad x s => 1 :: Zpos x :: map Zpos s
   | AFuel => [2]
   end.
+
+(* compact printing of a pair whose two snapshots are the SAME literal (the common case: nothing changed) *)
+Definition dup63 (q : Z * list int * Z * list int) : (Z * list int * Z * list int) * (Z * list int * Z * list int) := (q, q).
